@@ -1,4 +1,4 @@
-import Gp.Lemmas.Layers.Icmp
+import Gp.Lemmas.Layers.IcmpRt
 /-
   C19 for layers/icmp4.go, icmp6.go, icmp6msg.go (engine `licmp`): every ICMP decoder returns
   an error (never panics, never runs away) on EVERY byte string, for every old value of the
@@ -73,19 +73,6 @@ theorem option_overlong_is_error (t lb : UInt8) (rest foreign : Bytes) (acc : Li
 
 /-! ### NewPacket with SkipDecodeRecovery, DecodingLayerParser with IgnorePanic -/
 
-theorem pktRun_leaf (f : Nat) (k : Kind) (hk : k ≠ .icmp6) (data : Bytes) :
-    ∃ o, pktRun (f + 1) k data = .ok o := by
-  unfold pktRun
-  rw [decodeAny_eq]
-  simp only [Res.bind_ok]
-  have hkind : (pureAny (fresh k) data).layer.kind = k := by
-    rw [pureAny_kind]; cases k <;> rfl
-  have hnext := next_of_not_icmp6 (pureAny (fresh k) data).layer (by rw [hkind]; exact hk)
-  rw [hnext]
-  split
-  · exact ⟨_, rfl⟩
-  · split <;> exact ⟨_, rfl⟩
-
 /-- The registered decode functions (`decodeICMPv4`, `decodeICMPv6`, `decodeICMPv6Echo`, …) run
     by NewPacket WITHOUT recovery return a packet for every input: no panic, depth ≤ 3. -/
 theorem newpacket_total (k : Kind) (data : Bytes) : ∃ o, pktRun 3 k data = .ok o := by
@@ -118,19 +105,6 @@ theorem newpacket_no_panic (k : Kind) (data : Bytes) (pk : PanicKind) :
   obtain ⟨o, ho⟩ := newpacket_total k data
   rw [ho]; intro h; cases h
 
-theorem dlpRun_leaf (f : Nat) (k : Kind) (hk : k ≠ .icmp6) (o : Objs) (data : Bytes)
-    (acc : List PLayer) (tr : Bool) : ∃ r, dlpRun (f + 1) k o data acc tr = .ok r := by
-  unfold dlpRun
-  rw [decodeAny_eq]
-  simp only [Res.bind_ok]
-  have hkind : (pureAny (o.get k) data).layer.kind = k := by
-    rw [pureAny_kind]; cases k <;> rfl
-  have hnext := next_of_not_icmp6 (pureAny (o.get k) data).layer (by rw [hkind]; exact hk)
-  rw [hnext]
-  split
-  · exact ⟨_, rfl⟩
-  · split <;> exact ⟨_, rfl⟩
-
 /-- The layer parser (IgnorePanic: nothing is recovered) over ANY state of the reused objects. -/
 theorem parser_total (k : Kind) (o : Objs) (data : Bytes) :
     ∃ r, dlpRun 3 k o data [] false = .ok r := by
@@ -160,6 +134,24 @@ theorem parser_no_panic (k : Kind) (o : Objs) (data : Bytes) (pk : PanicKind) :
     dlpRun 3 k o data [] false ≠ .panic pk := by
   obtain ⟨r, hr⟩ := parser_total k o data
   rw [hr]; intro h; cases h
+
+/-! ### the option renderer on decoded layers (C01: String/Dump of a decoded packet) -/
+
+/-- `ICMPv6Option.String` indexes `Data[2:6]`, `Data[6+16j : 6+16(j+1)]` (RecursiveDNSServer)
+    without a length check; every option a successful decode leaves in a layer has at least 6
+    data bytes (`wfOpt`), so none of these accesses can panic. -/
+theorem decoded_options_render_total (old : AnyLayer) (data foreign : Bytes) (r : Dec AnyLayer)
+    (hu : Untouched old) (e : old.decode ⟨data, foreign⟩ = .ok r) (he : r.err = false) :
+    ∀ o ∈ optionsOf r.layer, optStringAccess o = .ok () := by
+  rw [decodeAny_eq] at e
+  cases e
+  intro o ho
+  exact optStringAccess_ok o (wfOpt_len o (wf_options _ (pureAny_wf old data hu he) o ho))
+
+/-- … while a hand-built RecursiveDNSServer option with fewer than 6 data bytes does panic
+    (not reachable by decoding; listed for the record). -/
+theorem short_rdnss_option_renderer_panics :
+    optStringAccess ⟨25, [1, 2, 3]⟩ = .panic .slice := by decide
 
 /-! ### non-vacuity / regression inputs (shapes that tempt an out-of-bounds read) -/
 
